@@ -844,7 +844,20 @@ fn run_case(src: &str, path: Option<&str>, opts: usize, features: wgt::Features)
         let mut verdicts = vec![];
         let mut ignore = false;
         let inputs = match ep.stage {
-            naga::ShaderStage::Vertex => vertex_inputs(&fx, &ep.name, &mut verdicts, &mut rep.notes),
+            naga::ShaderStage::Vertex => {
+                // two entry points whose names differ only in case share one ENTRY_<NAME> constant: the generated module does not
+                // compile (C01's recorded name-clash class) and which helper belongs to which entry point is undefined - the
+                // vertex inputs of such an entry point are not judged
+                let consts: Vec<(String, String)> = child(&fx, "entryConsts")
+                    .map(|c| children(c, "ec").filter_map(|e| Some((as_str(items(e).get(1)?)?.to_string(), as_str(items(e).get(2)?)?.to_string()))).collect())
+                    .unwrap_or_default();
+                let mine: Vec<&String> = consts.iter().filter(|(_, n)| *n == ep.name).map(|(c, _)| c).collect();
+                if mine.iter().any(|c| consts.iter().filter(|(c2, _)| c2 == *c).count() > 1) {
+                    rep.notes.push(format!("vertex entry {}: its ENTRY_ constant is defined more than once (names differing only in case); inputs not judged", ep.name));
+                    ignore = true;
+                }
+                vertex_inputs(&fx, &ep.name, &mut verdicts, &mut rep.notes)
+            }
             naga::ShaderStage::Fragment => match fragment_inputs(&module, ep) {
                 Some(io) => io,
                 None => {
